@@ -61,7 +61,7 @@ def _spec_choices(rng):
         # a mutated but still accepted input: unusual names, characters and values coming from the wire
         from simverif import wirefault
         path = rng.choice(paths)
-        seeds = corpus.accepted(path)
+        seeds = corpus.accepted_plus(path)
         if seeds:
             raw = rng.choice(seeds)
             faults = wirefault.token_faults(rng, raw) if wirefault.is_text(raw) and rng.random() < 0.7 else \
